@@ -23,6 +23,7 @@ def wtS (Γ : Ctx) : FStmt → Prop
   | .assert c r => CondOK Γ c ∧ ReasonOK Γ r
   | .ite c t e => CondOK Γ c ∧ wtS Γ t ∧ wtS Γ e
   | .while sp c body => (∀ a ∈ sp, CondOK Γ a.2) ∧ CondOK Γ c ∧ wtS Γ body
+  | .callAssign lhs _ _ => ∃ n, lhs = .var n (Γ n)
   | _ => True
 
 def WfLoops (Γ : Ctx) (loops : List LoopSpec) : Prop := ∀ sp ∈ loops, ∀ a ∈ sp, CondOK Γ a.2
@@ -165,6 +166,7 @@ theorem loop_sound {Γ : Ctx} {loops : List LoopSpec} {sp : LoopSpec} {c : Expr}
   | jumpB => intro hw; cases hw
   | jumpC => intro hw; cases hw
   | call _ => intro hw; cases hw
+  | callAssign _ _ => intro hw; cases hw
   | yield _ => intro hw; cases hw
   | cocall _ => intro hw; cases hw
   | ret => intro hw; cases hw
@@ -408,6 +410,48 @@ theorem exec_sound {Γ : Ctx} :
       cases hx with
       | call hh => exact havoc_keeps S hh
     · cases hc
+  | callAssign lhs retTy args =>
+    intro loops fs fs1 env o hw _ hc S hx
+    simp only [wtS] at hw
+    obtain ⟨n, rfl⟩ := hw
+    cases hx with
+    | @callAssign _ env' _ _ _ _ v hh hv =>
+      simp only [checkS, isVar, Bool.not_true, Bool.false_eq_true, if_false] at hc
+      cases hb : bcheck fs false (.var n (Γ n)) with
+      | none => simp [hb] at hc
+      | some b0 =>
+        cases ht : typeBounds retTy with
+        | none => simp [hb, ht] at hc
+        | some nb =>
+          simp only [hb, ht] at hc
+          split at hc
+          · cases hc
+          · rename_i hok
+            simp only [Bool.or_eq_true, Bool.not_eq_true', not_or, Bool.not_eq_false] at hok
+            have hfit : fitsType (Γ n) nb = true := by simpa [typeOf] using hok.2
+            -- after the callee: the facts not mentioning `this` still hold
+            have S1 : Situation Γ env' (dropReceiver fs) := havoc_keeps S hh
+            have hmem : nb.mem v := (typeBounds_mem_iff ht v).2 hv
+            have hty : inType (Γ n) v := fitsType_spec hfit hmem
+            have hen : EnvOk Γ (upd env' n v) := envOk_upd S1.envOk hty
+            -- after the store: the facts not mentioning the target still hold
+            have S2 : Situation Γ (upd env' n v) (dropLHS (dropReceiver fs) (.var n (Γ n))) := by
+              refine ⟨hen, ?_, ?_, ?_⟩
+              · intro f hf
+                simp only [dropLHS, mentionsLHS, Bool.or_false, List.mem_filter, Bool.not_eq_true'] at hf
+                rw [evalI_upd _ f (S1.wtF f hf.1) hf.2]
+                exact S1.holds f hf.1
+              · intro f hf
+                exact S1.wtF f (List.mem_filter.1 hf).1
+              · intro f hf
+                exact S1.cmpF f (List.mem_filter.1 hf).1
+            split at hc
+            · cases hc; exact S2
+            · have hval : nb.mem (evalI (upd env' n v) (.var n (Γ n))) := by
+                simpa [evalI, upd] using hmem
+              obtain ⟨r1, r2, r3⟩ := boundFacts_sound (Γ := Γ) (lhs := .var n (Γ n)) rfl hc hval
+                S2.holds S2.wtF S2.cmpF
+              exact ⟨hen, r1, r2, r3⟩
   | yield =>
     intro loops fs fs1 env o _ _ hc S hx
     simp only [checkS, Option.some.injEq] at hc
